@@ -3,13 +3,36 @@ use crate::proto::{self, Toks, R};
 use crate::rng::Rng;
 use crate::shapes::*;
 use geo::algorithm::relate::{PreparedGeometry, Relate};
-use geo_types::Geometry;
+use geo_types::*;
 use std::panic::{catch_unwind, AssertUnwindSafe};
 
 pub fn gen(rng: &mut Rng, _index: u64) -> String {
     let k = *rng.pick(&[3i64, 4, 4, 6]);
     let n = rng.range(2, 3) as usize;
-    let gs: Vec<Geometry<f64>> = (0..n).map(|_| gen_valid(rng, k)).collect();
+    let gs: Vec<Geometry<f64>> = (0..n)
+        .map(|_| {
+            if rng.chance(1, 5) {
+                // mixed-dimension collections and point-like members lying outside the extent of all
+                // segments (outside C01's domain for the *true* matrix, but prepared must still equal plain)
+                let kind = *rng.pick(&[2u64, 3, 5, 6, 7, 8]);
+                let mut members = vec![gen_kind(rng, k, kind, 0)];
+                let far = c(rng.range(k + 2, k + 6), rng.range(k + 2, k + 6));
+                members.push(match rng.below(3) {
+                    0 => Geometry::Point(Point(far)),
+                    1 => Geometry::MultiPoint(MultiPoint(vec![Point(far), Point(c(rng.range(0, k), rng.range(0, k)))])),
+                    _ => Geometry::LineString(LineString(vec![far])),
+                });
+                if rng.chance(1, 2) { members.reverse(); }
+                Geometry::GeometryCollection(GeometryCollection(members))
+            } else if rng.chance(1, 8) {
+                // a partner near such an outlying point
+                let x = rng.range(k + 1, k + 5);
+                Geometry::LineString(LineString(vec![c(x, x), c(x + 2, x + 2)]))
+            } else {
+                gen_valid(rng, k)
+            }
+        })
+        .collect();
     let calls = rng.range(3, 10);
     let mut s = format!("C17.hist {}", n);
     for g in &gs {
@@ -82,6 +105,12 @@ pub fn eval(op: &str, t: &mut Toks) -> R<String> {
                     out.push(' ');
                 }
                 match r {
+                    Ok(m) => out.push_str(&im_str(m)),
+                    Err(_) => out.push_str("panic"),
+                }
+                // the plain answer for the same operands, for the prepared == plain clause
+                out.push(' ');
+                match catch_unwind(AssertUnwindSafe(|| gs[i].relate(&gs[j]))) {
                     Ok(m) => out.push_str(&im_str(m)),
                     Err(_) => out.push_str("panic"),
                 }
